@@ -222,6 +222,12 @@ FORMS = [
     Form("community-map", ["snmp-server mib community-map {}:100 context public1", "snmp-server mib community-map {}"], text_kw={"alphabet_mid": NO_COLON}, classes=["text", "numeric", "hex", "type7", "md5", "sha512", "j9"], enclose=False),
     Form("snmp-community-extra", ["rf-switch snmp-community {}"]),
     Form("catchall-9", ['set foo bar "{}"', "foo {}", "set interfaces ge-0/0/0 unit 0 description {}"], trails=["", ";"], classes=["j9"], enclose=False),
+    # the same form twice on one physical line (compact one-line exports, Junos statements written inline)
+    Form("aws-json-twice", ['{"VpnConnections": [{"PreSharedKey": "{}", "TunnelInsideCidr": "169.254.44.0/30"}, {"PreSharedKey": "{}", "TunnelInsideCidr": "169.254.45.0/30"}]}'], classes=["text"], text_kw={"exact": 32}, enclose=False, slots=2),
+    Form("aws-xml-twice", ["<ipsec_tunnel><pre_shared_key>{}</pre_shared_key></ipsec_tunnel><ipsec_tunnel><pre_shared_key>{}</pre_shared_key></ipsec_tunnel>"], classes=["text"], text_kw={"exact": 32}, enclose=False, slots=2),
+    Form("auth-key-junos-twice", ["level 1 { authentication-key {}; } level 2 { authentication-key {}; }"], enclose=False, slots=2),
+    Form("catchall-9-twice", ["old {} new {}", 'set foo "{}" bar "{}"'], classes=["j9"], enclose=False, slots=2),
+    Form("catchall-1-twice", ["old {} new {}"], classes=["md5"], enclose=False, slots=2),
     Form("catchall-1", ["my hash is {}", 'set system login user someone authenitcation "{}"'], classes=["md5"], enclose=False),
     Form("aws-xml", ["<pre_shared_key>{}</pre_shared_key>", "      <pre_shared_key>{}</pre_shared_key>"], classes=["text"], text_kw={"exact": 32}, enclose=False),
     Form("aws-json", ['"PreSharedKey": "{}",', '        "PreSharedKey": "{}"', '{"TunnelOptions": [{"OutsideIpAddress": "203.0.113.7", "PreSharedKey": "{}"'], trails=["", "", ', "TunnelInsideCidr": "169.254.44.0/30"}', ', "Phase1LifetimeSeconds": 28800, "IkeVersions": [{"Value": "ikev2"}]}]}'], classes=["text"], text_kw={"exact": 32}, enclose=False),
